@@ -31,6 +31,8 @@ structure Ext where
   valueFn : Nat → Str → Str → List Str
   /-- `ArgCompletionsFn` callbacks: id, target, previous args, partial -/
   argFn : Nat → Str → List Str → Str → List Str
+  /-- `filepath.Base(os.Args[0])`: the name `Self("", …)` falls back to -/
+  exeName : Str := []
   /-- section headers of `text/variables.go` -/
   hdrName : Str
   hdrSynopsis : Str
